@@ -420,3 +420,45 @@ Fixpoint lrun_from (procs : list lk) (s : lstate) (ops : list lop) : list (lop *
 
 Definition lrun (procs : list lk) (ops : list lop) : outcome (list (lop * mobs)) :=
   Ok (lrun_from procs {| l_stopped := false; l_q := map (fun _ => 0) procs; l_pending := false |} ops).
+
+(** * Concurrent Shutdown callers on the log and metric providers.
+    LoggerProvider.Shutdown: [stopped.Swap(true)]; the caller that swapped false->true shuts the
+    processors down one after the other, every other caller returns nil at once ([blocking = false]).
+    MeterProvider.Shutdown: [stopped.Store(true)] then unifyShutdown's [sync.Once]: the first caller
+    runs the readers' shutdown, every other caller waits for it and returns ErrReaderShutdown
+    ([blocking = true]). [n] = number of processors / readers. *)
+Inductive spc := SIdle | SRun (i : nat) | SDone (e : err).
+
+Record sstate := {
+  s_flag : option nat;          (* the caller that won the swap / the Once *)
+  s_finished : bool;            (* the winner has shut everything down *)
+  s_counts : nat -> nat;        (* Shutdown calls received by processor / reader j *)
+  s_pcs : nat -> spc
+}.
+
+Definition sinit : sstate :=
+  {| s_flag := None; s_finished := false; s_counts := fun _ => 0; s_pcs := fun _ => SIdle |}.
+
+Definition sstep (blocking : bool) (n : nat) (callers : nat -> bool) (s : sstate) (t : nat) : option sstate :=
+  if negb (callers t) then None else
+  match s_pcs s t with
+  | SIdle =>
+      match s_flag s with
+      | None => Some {| s_flag := Some t; s_finished := false; s_counts := s_counts s; s_pcs := upd (s_pcs s) t (SRun 0) |}
+      | Some _ =>
+          if blocking
+          then if s_finished s
+               then Some {| s_flag := s_flag s; s_finished := true; s_counts := s_counts s;
+                            s_pcs := upd (s_pcs s) t (SDone EShut) |}
+               else None                                   (* sync.Once.Do waits for the running call *)
+          else Some {| s_flag := s_flag s; s_finished := s_finished s; s_counts := s_counts s;
+                       s_pcs := upd (s_pcs s) t (SDone ENil) |}
+      end
+  | SRun i =>
+      if i <? n
+      then Some {| s_flag := s_flag s; s_finished := false; s_counts := upd (s_counts s) i (S (s_counts s i));
+                   s_pcs := upd (s_pcs s) t (SRun (S i)) |}
+      else Some {| s_flag := s_flag s; s_finished := true; s_counts := s_counts s;
+                   s_pcs := upd (s_pcs s) t (SDone ENil) |}
+  | SDone _ => None
+  end.
